@@ -48,18 +48,35 @@ class Driver:
         return out.rstrip("\n")
 
     def ask_many(self, lines):
-        """Pipelined: write all, then read all (driver flushes per line)."""
+        """Pipelined: a reader thread collects the answers while all requests are written, so
+        neither pipe can fill up and block (requests and answers may be many kB long)."""
+        import threading
         out = []
-        CH = 200
-        for k in range(0, len(lines), CH):
-            chunk = lines[k:k + CH]
-            self.proc.stdin.write("".join(l + "\n" for l in chunk))
+        err = []
+
+        def reader():
+            try:
+                for _ in lines:
+                    o = self.proc.stdout.readline()
+                    if not o:
+                        err.append("dvdriver died")
+                        return
+                    out.append(o.rstrip("\n"))
+            except Exception as exc:  # pragma: no cover
+                err.append(repr(exc))
+        t = threading.Thread(target=reader, daemon=True)
+        t.start()
+        try:
+            for l in lines:
+                assert "\n" not in l
+                self.proc.stdin.write(l + "\n")
             self.proc.stdin.flush()
-            for _ in chunk:
-                o = self.proc.stdout.readline()
-                if not o:
-                    raise RuntimeError("dvdriver died")
-                out.append(o.rstrip("\n"))
+        except BrokenPipeError:
+            err.append("dvdriver died (broken pipe)")
+        t.join()
+        if err or len(out) != len(lines):
+            raise RuntimeError(err[0] if err else "dvdriver answered %d of %d requests"
+                               % (len(out), len(lines)))
         return out
 
     def close(self):
